@@ -96,6 +96,12 @@ class VConfig:
             else:
                 s = rng.random((N, ndim))
             self.frames.append(self.los[_t] + s * self.Ls[_t])
+        # per-frame particle numbers: constant, or frame t keeps the first Ns[t] particles
+        self.Ns = [self.N] * T
+        if recipe.get("nvary") and layout != "hex":
+            for t in range(1, T):
+                self.Ns[t] = int(rng.integers(4, self.N + 1))
+                self.frames[t] = self.frames[t][: self.Ns[t]]
         self.ref = None
 
     def bounds(self, t=0):
@@ -106,7 +112,7 @@ class VConfig:
         pts = pos - shift
         if self.ndim == 2:
             box = freud.box.Box(Lx=L[0], Ly=L[1], is2D=True)
-            pts = np.hstack((pts, np.zeros((self.N, 1))))
+            pts = np.hstack((pts, np.zeros((len(pts), 1))))
         else:
             box = freud.box.Box(Lx=L[0], Ly=L[1], Lz=L[2])
         v = freud.locality.Voronoi()
@@ -161,7 +167,7 @@ class VConfig:
         idx = range(self.T) if only is None else [only]
         for t in idx:
             snaps.append(SingleSnapshot(
-                timestep=100 * t, nparticle=self.N, particle_type=np.ones(self.N, dtype=int),
+                timestep=100 * t, nparticle=self.Ns[t], particle_type=np.ones(self.Ns[t], dtype=int),
                 positions=self.frames[t].copy(), boxlength=self.Ls[t].copy(), boxbounds=self.bounds(t),
                 realbounds=None, hmatrix=np.diag(self.Ls[t])))
         return Snapshots(nsnapshots=len(snaps), snapshots=snaps)
@@ -180,6 +186,14 @@ def parse_overall(path, N):
         if len(it) != 3:
             raise ValueError(f"overall row {ln!r}")
         rows.append((int(it[0]), int(it[1]), float(it[2])))
+    if isinstance(N, (list, tuple)):
+        if len(rows) != sum(N):
+            raise ValueError(f"{len(rows)} overall rows for particle numbers {list(N)}")
+        out, i = [], 0
+        for n in N:
+            out.append(rows[i:i + n])
+            i += n
+        return out
     if len(rows) % N:
         raise ValueError(f"{len(rows)} overall rows for N={N}")
     return [rows[i:i + N] for i in range(0, len(rows), N)]
@@ -309,6 +323,7 @@ class World(WorldBase):
                    "origin": rng.choice(["any", "any", "centred", "zero", "int-sum-zero", "far"]),
                    "shape": rng.choice(["cube", "cube", "cube", "slab"]),
                    "layout": rng.choice(["random", "lattice"]), "boxes": rng.choice(["const", "const", "vary", "creep"]),
+                   "nvary": rng.random() < 0.25,
                    "subseed": rng.randrange(1 << 40)}
             if huge:
                 rec.update(layout="hex", shape="cube", T=1)
@@ -392,11 +407,10 @@ class World(WorldBase):
 
     def judge_files(self, cfg, paths):
         pn, pw, po = paths
-        N = cfg.N
         try:
-            fn = parse_frames(pn, N)
-            fw = parse_frames(pw, N)
-            fo = parse_overall(po, N)
+            fn = parse_frames(pn, list(cfg.Ns))
+            fw = parse_frames(pw, list(cfg.Ns))
+            fo = parse_overall(po, list(cfg.Ns))
         except (ValueError, IndexError, FileNotFoundError) as e:
             raise Violation("C20/file-layout:produce", f"{type(e).__name__}: {e}")
         if not (len(fn) == len(fw) == len(fo) == cfg.T):
@@ -404,6 +418,7 @@ class World(WorldBase):
         ref = cfg.reference()
         out_n, out_w = [], []
         for t in range(cfg.T):
+            N = cfg.Ns[t]
             vol_box = float(np.prod(cfg.Ls[t]))
             (hn, rn), (hw, rw), ro = fn[t], fw[t], fo[t]
             if "neighborlist" not in hn or "neighborlist" in hw:
@@ -474,7 +489,8 @@ class World(WorldBase):
         if d["cursor"] >= cfg.T:
             raise Refuse("at end")
         nmax, f = op["nmax"], d["f"]
-        fn = (lambda: read_neighbors(f, cfg.N)) if nmax is None else (lambda: read_neighbors(f, cfg.N, nmax))
+        n_t = cfg.Ns[d["cursor"]]
+        fn = (lambda: read_neighbors(f, n_t)) if nmax is None else (lambda: read_neighbors(f, n_t, nmax))
         res, exc, (nev, dig, fired) = self.call(fn, op.get("fault"))
         tag = f"read_frame:{d['which']}"
         if exc is not None:
@@ -487,7 +503,7 @@ class World(WorldBase):
         weights = d["which"] == "weights"
         rows = o["frames_w" if weights else "frames_n"][d["cursor"]]
         eff = 200 if nmax is None else nmax
-        want = expected_read(rows, cfg.N, eff, weights)
+        want = expected_read(rows, n_t, eff, weights)
         if not isinstance(res, np.ndarray) or res.dtype != want.dtype or res.shape != want.shape:
             raise Violation(f"C20/reader-shape:{tag}", f"got {getattr(res, 'dtype', None)} {getattr(res, 'shape', None)}, expected {want.dtype} {want.shape} (Nmax={nmax})")
         if not np.array_equal(res, want):
@@ -544,7 +560,8 @@ class World(WorldBase):
                 return "transform singular (not judged)"
             raise Violation(f"C20/volmat-raised:{tag}", f"{exc[0]}: {exc[1]} for frame {k} of {cfg.T}, N={cfg.N} ndim={cfg.ndim} transform={op['transform']} save={save}")
         nd = cfg.ndim
-        shape = (cfg.N * nd, cfg.N * nd) if op["transform"] else (cfg.N, cfg.N * nd)
+        nk = cfg.Ns[k]
+        shape = (nk * nd, nk * nd) if op["transform"] else (nk, nk * nd)
         if not isinstance(res, np.ndarray) or res.shape != shape:
             raise Violation(f"C20/volmat-shape:{tag}", f"shape {getattr(res, 'shape', None)}, expected {shape} for frame {k}")
         # requested frame: same call on a one-frame trajectory holding only frame k
@@ -560,7 +577,7 @@ class World(WorldBase):
         if k > 0:
             self.ctx.probe("volmat_frame_index_gt0")
         if not op["transform"]:
-            a = res.reshape(cfg.N, cfg.N, nd)
+            a = res.reshape(nk, nk, nd)
             rs = np.abs(a.sum(axis=1))
             scale = max(1e-300, float(np.max(np.abs(res))))
             if not np.all(np.isfinite(res)) or float(rs.max()) > 1e-9 * scale + 1e-12:
